@@ -894,7 +894,9 @@ def gen_families():
             ('symtab', ['-s', '-e'], dynobj.gen_symtab_file), ('relocs', ['-r'], relocs),
             ('layout', ['-e'], dynobj.gen_layout_file),
             ('dumps', ['-x.text', '-p.comment', '-x.comment', '-p.text', '-x.empty', '-x.bss', '-p.shstrtab'], dynobj.gen_dump_file),
-            ('lines', ['--debug-dump=decodedline'], dwenv.gen_lines_file)]
+            ('lines', ['--debug-dump=decodedline'], dwenv.gen_lines_file),
+            ('frames', ['--debug-dump=frames', '--debug-dump=frames-interp'], dwenv.gen_frames_file),
+            ('names', ['--debug-dump=aranges', '--debug-dump=pubnames', '--debug-dump=pubtypes', '--debug-dump=info'], dwenv.gen_names_file)]
 
 
 def mask(line):
@@ -918,6 +920,10 @@ def run_generated(idx, rng, sh):
                 sh.sample({'family': name, 'option': option, 'lines': n[0], 'shape': jsonable_small(desc)}, kind='generated:' + name)
             else:
                 first = msg.splitlines()[1] if res == 'diff' and len(msg.splitlines()) > 1 else msg
+                fid = 'name_tables_keyed_by_name'
+                if res == 'diff' and name == 'names' and desc.get('dup_' + option.split('=')[-1]) and fid in sh.quirks:
+                    sh.known_finding(fid)       # the same name occurs twice in the table: the open finding explains the difference
+                    continue
                 if res == 'diff' and any(ph in first for ph in ('unrecognized:', '<unknown>:', '<processor specific>', '<os specific>')):
                     sh.count('pairs_unjudged_gnu_placeholder')
                     sh.skip('GNU readelf 2.40 has no name for a code in this file')
@@ -972,6 +978,41 @@ def run_case(kind, idx, rng, sh):
         run_generated(idx, rng, sh)
     else:
         run_descr(idx, rng, sh)
+
+
+def witness(fid, sh):
+    """Committed deterministic witnesses of the open findings that the generated families can hit."""
+    if fid != 'name_tables_keyed_by_name':
+        return
+    # two units, both with a type 'int' and a function 'f': GNU readelf prints 2+2 entries
+    from ..gen import dwtab
+    units = abbrevs = pubn = b''
+    for i in range(2):
+        cu = dwtab.CU(version=4)
+        cu.root_name = 'u%d.c' % i
+        cu.add(0x24, [(0x0b, 0x0b, b'\x04', None), (0x3e, 0x0b, b'\x05', None)], label='int')
+        cu.add(0x2e, [(0x3f, 0x0c, b'\x01', None)], label='f')
+        off = len(units)
+        u, ab, offs = cu.build(abbrev_base=len(abbrevs))
+        b = struct.pack('<HII', 2, off, len(u)) + struct.pack('<I', offs[1]) + b'f\0' + struct.pack('<I', 0)
+        pubn += struct.pack('<I', len(b)) + b
+        units += u
+        abbrevs += ab
+    img = oracles.wrap_debug({'.debug_info': units, '.debug_abbrev': abbrevs, '.debug_pubnames': pubn}, True)
+    with oracles.Scratch() as s:
+        p = s.write('w.elf', img)
+        r1 = oracles.run(['readelf', '--debug-dump=pubnames', p], cwd=REPO)
+        r2 = oracles.run([sys.executable, 'scripts/readelf.py', '--debug-dump=pubnames', p], cwd=REPO)
+    g = sum(1 for ln in r1[1].splitlines() if ln.split()[-1:] == ['f'])
+    c = sum(1 for ln in r2[1].splitlines() if ln.split()[-1:] == ['f'])
+    if g != 2:
+        sh.violation('C18:witness of %s: harness: GNU readelf printed %d entries' % (fid, g))
+    elif c == 2:
+        return                      # repaired: no KNOWN-FINDING line
+    elif c == 1:
+        sh.known[fid] += 1
+    else:
+        sh.violation('C18:witness of %s fails differently' % fid, clone_entries=c)
 
 
 def finish(m, tier, seed):
